@@ -36,7 +36,7 @@ def bad_value(t, k):
     vs = _BAD_BY_TYPE.get(get_named_type(t).name, (BAD,))
     return vs[k % len(vs)]
 from .plan import EXC_KINDS
-from .world import ABSTRACTS, OBJECTS, canon
+from .world import ABSTRACTS, DEFAULT_RESOLVED, OBJECTS, canon
 
 
 class EmptyStrError(Exception):
@@ -137,6 +137,13 @@ class Request:
         # composite
         obj = dict(v)
         obj["__path"] = path
+        ot = self.world.schema.type_map.get(v.get("__t"))
+        for fname in DEFAULT_RESOLVED:
+            fdef = ot.fields.get(fname) if ot is not None else None
+            if fdef is not None:
+                kind, dv = self.world.data.default_entry(fdef.type, v["__oid"], fname)
+                if kind != "absent":
+                    obj[fname] = dv
         mode = self.world.type_mode
         if mode == "typename":
             tn = v["__t"]
@@ -499,8 +506,9 @@ def attach(schema, type_mode, reset_shared=True):
         _SHARED["err"] = GraphQLError("shared failure")  # one instance per unit
     for tname in ("Query", "Mutation", "Subscription") + OBJECTS:
         t = schema.type_map[tname]
-        for f in t.fields.values():
-            f.resolve = field_resolver
+        for fname, f in t.fields.items():
+            if fname not in DEFAULT_RESOLVED:
+                f.resolve = field_resolver
     if type_mode == "resolve_type":
         for an in ABSTRACTS:
             schema.type_map[an].resolve_type = (
